@@ -5,7 +5,7 @@ func init() { subcmds["c04"] = runC04 }
 func runC04(rc *runCtx) error {
 	n := rc.n
 	if n == 0 {
-		n = 96
+		n = 144
 		if rc.thorough() {
 			n = 2400
 		}
